@@ -13,7 +13,10 @@
 (* ("*", weak prefix ignored per list member); otherwise If-Modified-Since *)
 (* compares whole seconds of the change time with the date sent.           *)
 (* Every modification advances the clock by at least one tick, so two      *)
-(* versions never share an mtime.                                          *)
+(* versions never share an mtime.  Restore puts different content of the   *)
+(* same size in place with an OLDER (never used) mtime - cp -p, rsync -t,  *)
+(* a backup unpacked - so only the change time moves forward; Chmod moves  *)
+(* the change time alone.                                                  *)
 (***************************************************************************)
 EXTENDS Naturals, Sequences, TLC
 
@@ -21,8 +24,8 @@ CONSTANTS TPS,        \* ticks per second
           MaxSteps,   \* history length bound
           MaxResp
 
-VARIABLES clock, file, resp, last, steps
-vars == <<clock, file, resp, last, steps>>
+VARIABLES clock, file, resp, last, steps, used
+vars == <<clock, file, resp, last, steps, used>>
 
 Forms == {"etag", "weak", "listFirst", "listLast", "weakListLast", "star", "lm", "both", "bothRev", "staleEtag", "weakFirstThenTag"}
 \* ("bothRev": the same two validators with the date header first - header order must not matter)
@@ -30,25 +33,36 @@ Sec(t) == t \div TPS
 
 Init == /\ clock = 2 * TPS
         /\ file = [ver |-> 1, size |-> 3, mtime |-> TPS, ctime |-> TPS]
-        /\ resp = <<>> /\ last = [k |-> "none"] /\ steps = 0
+        /\ resp = <<>> /\ last = [k |-> "none"] /\ steps = 0 /\ used = {TPS}
 
 Tick(n) == /\ steps < MaxSteps /\ clock' = clock + n /\ steps' = steps + 1
-           /\ last' = [k |-> "tick"] /\ UNCHANGED <<file, resp>>
+           /\ last' = [k |-> "tick"] /\ UNCHANGED <<file, resp, used>>
 
 Modify(newSize, newVer) ==
   /\ steps < MaxSteps /\ clock' = clock + 1 /\ steps' = steps + 1
   /\ file' = [ver |-> newVer, size |-> newSize, mtime |-> clock + 1, ctime |-> clock + 1]
+  /\ used' = used \cup {clock + 1}
   /\ last' = [k |-> "modify"] /\ UNCHANGED resp
 RewriteSameSize == Modify(file.size, file.ver + 1)
 RewriteOtherSize == Modify(IF file.size = 3 THEN 5 ELSE 3, file.ver + 1)
 Touch == Modify(file.size, file.ver)
+\* other content, same size, an mtime d ticks OLDER than the current one (and never used before); ctime = now
+Restore(d) ==
+  /\ steps < MaxSteps /\ file.mtime >= d /\ (file.mtime - d) \notin used
+  /\ clock' = clock + 1 /\ steps' = steps + 1 /\ used' = used \cup {file.mtime - d}
+  /\ file' = [ver |-> file.ver + 1, size |-> file.size, mtime |-> file.mtime - d, ctime |-> clock + 1]
+  /\ last' = [k |-> "modify"] /\ UNCHANGED resp
+\* metadata change only
+Chmod == /\ steps < MaxSteps /\ clock' = clock + 1 /\ steps' = steps + 1
+         /\ file' = [file EXCEPT !.ctime = clock + 1]
+         /\ last' = [k |-> "modify"] /\ UNCHANGED <<resp, used>>
 
 Validators == [tag |-> <<file.mtime, file.size>>, lm |-> Sec(file.mtime)]
-Full == [k |-> "resp", status |-> 200, ver |-> file.ver, tag |-> Validators.tag, lm |-> Validators.lm]
+Full == [k |-> "resp", status |-> 200, ver |-> file.ver, tag |-> Validators.tag, lm |-> Validators.lm, ct |-> file.ctime]
 
 Plain == /\ steps < MaxSteps /\ Len(resp) < MaxResp /\ steps' = steps + 1
          /\ resp' = Append(resp, Full) /\ last' = Full
-         /\ UNCHANGED <<clock, file>>
+         /\ UNCHANGED <<clock, file, used>>
 
 \* the tags a form sends, given the validators of response j
 TagsSent(j, f) ==
@@ -72,13 +86,15 @@ NotModified(j, f) ==
 
 Cond(j, f) ==
   /\ steps < MaxSteps /\ j \in 1..Len(resp) /\ steps' = steps + 1
-  /\ last' = IF NotModified(j, f) THEN [k |-> "resp", status |-> 304, ver |-> 0, tag |-> <<0, 0>>, lm |-> 0, j |-> j, form |-> f]
+  /\ last' = IF NotModified(j, f) THEN [k |-> "resp", status |-> 304, ver |-> 0, tag |-> <<0, 0>>, lm |-> 0, ct |-> 0, j |-> j, form |-> f]
              ELSE [Full EXCEPT !.k = "resp"] @@ [j |-> j, form |-> f]
   /\ resp' = IF NotModified(j, f) \/ Len(resp) >= MaxResp THEN resp ELSE Append(resp, Full)
-  /\ UNCHANGED <<clock, file>>
+  /\ UNCHANGED <<clock, file, used>>
 
 Next == \/ \E n \in 1..(TPS + 1) : Tick(n)
         \/ RewriteSameSize \/ RewriteOtherSize \/ Touch \/ Plain
+        \/ \E d \in 1..(TPS + 1) : Restore(d)
+        \/ Chmod
         \/ \E j \in 1..MaxResp, f \in Forms : Cond(j, f)
 Spec == Init /\ [][Next]_vars
 
@@ -86,13 +102,14 @@ Spec == Init /\ [][Next]_vars
 IsCond == last.k = "resp" /\ "form" \in DOMAIN last
 Sent == resp[last.j]
 \* a 304 only if the file is unchanged since that response (entity tags), resp. not changed by a whole second (date only)
+\* (a date-only request cannot reveal a change within the second of the date it carries)
 NoStale == (IsCond /\ last.status = 304 /\ last.form \notin {"star"}) =>
              IF HasTags(last.form) THEN file.ver = Sent.ver /\ <<file.mtime, file.size>> = Sent.tag
-             ELSE Sec(file.ctime) <= Sent.lm
+             ELSE file.ver = Sent.ver \/ Sec(file.ctime) <= Sent.lm
 \* after a change of size, or of the timestamps by at least a second: a full response with new content and validators
 \* (a request that carries only a date cannot reveal a change of size within the same second - no server could tell)
 FreshAfterChange == (IsCond /\ last.form \notin {"star", "staleEtag"} /\
-                     ((HasTags(last.form) /\ file.size # Sent.tag[2]) \/ file.mtime >= Sent.tag[1] + TPS)) =>
+                     ((HasTags(last.form) /\ file.size # Sent.tag[2]) \/ file.mtime >= Sent.tag[1] + TPS \/ (file.ver # Sent.ver /\ file.ctime >= Sent.ct + TPS))) =>
                        (last.status = 200 /\ last.ver = file.ver /\ last.tag = <<file.mtime, file.size>> /\ last.tag # Sent.tag)
 \* while the file is unchanged, the ETag of a 200 revalidates in every syntactic form; "*" always matches
 EtagRevalidates == (IsCond /\ <<file.mtime, file.size>> = Sent.tag /\ last.form \in Forms \ {"lm", "staleEtag"}) => last.status = 304
